@@ -122,7 +122,7 @@ impl Profile {
             }
             "C08" => {
                 // (a burst of more than 64 completions in one pass of the executor needs the wide shape)
-                p.wide_pm = if thorough { 60 } else { 30 };
+                p.wide_pm = if thorough { 80 } else { 60 };
                 p.fail_fast_pm = 1000;
                 p.faults_pm = 900;
                 p.parser_err_pm = 250;
@@ -547,6 +547,9 @@ pub fn gen_plan(seed: u64, prof: &Profile) -> Plan {
     let fault_pm: u64 = if faults_on { *r.pick(&[20, 80, 250, 500]) } else { 0 };
     let await_max = *r.pick(&[1_000u64, 1_000_000, 1_000_000_000, 100_000_000_000]);
     let await_pm: u64 = *r.pick(&[0, 300, 700, 1000]);
+    // (wide plans: half of them without any await, so that the 70 - 100 scenarios complete in lock-step - a burst
+    // of completions in one pass of the executor)
+    let await_pm = if wide && r.chance(1, 2) { 0 } else { await_pm };
     let logs = prof.tracing;
     let log_burst = logs && r.chance(1, 3);
     // a flood: hundreds to thousands of events emitted at the very end of one callback - more than the
